@@ -152,3 +152,86 @@ fn h_tcp_control_bits() {
     m.set_rst(v);
     assert!(m.rst() == v && u8::from(m) & !4 == c & !4);
 }
+
+// ---------------------------------------------------------------------------
+// compute_checksum configuration (C18): header-only segments (no payload), all
+// header fields and both addresses symbolic; RFC 1071 reference in 32-bit arithmetic.
+// ---------------------------------------------------------------------------
+#[cfg(feature = "compute_checksum")]
+fn rfc1071_tcp_sum(b: &[u8; 20], s: &[u8; 4], d: &[u8; 4], tcp_len: u16) -> u16 {
+    let mut t: u32 = 0;
+    let mut i = 0;
+    while i < 20 {
+        t += be16(b[i], b[i + 1]) as u32;
+        i += 2;
+    }
+    t += be16(s[0], s[1]) as u32 + be16(s[2], s[3]) as u32 + be16(d[0], d[1]) as u32 + be16(d[2], d[3]) as u32;
+    t += 6 + tcp_len as u32;
+    t = (t & 0xffff) + (t >> 16);
+    t = (t & 0xffff) + (t >> 16);
+    t as u16
+}
+
+//# id=checksum.emitted_segment_verifies props=C18 kind=complete features=compute_checksum tier=thorough pair=
+#[cfg(feature = "compute_checksum")]
+#[cfg_attr(kani, kani::proof)]
+#[cfg_attr(kani, kani::unwind(22))]
+#[cfg_attr(vx_replay, test)]
+fn h_ck_tcp_emit_verifies() {
+    let (sp, dp): (u16, u16) = (any(), any());
+    let (seq, ack): (u32, u32) = (any(), any());
+    let wnd: u16 = any();
+    let (s, d): ([u8; 4], [u8; 4]) = (any(), any());
+    let (sa, da) = (Ipv4Address::new(s), Ipv4Address::new(d));
+    let h = TcpHeaderBuilder::new(sp, dp, seq).wnd(wnd).ack(ack).build(sa, da, [].into_iter(), 0).unwrap();
+    let out = h.serialize();
+    let mut b = [0u8; 20];
+    let mut i = 0;
+    while i < 20 {
+        b[i] = out[i];
+        i += 1;
+    }
+    assert!(rfc1071_tcp_sum(&b, &s, &d, 20) == 0xffff);
+    assert!(TcpHeader::from_bytes(b.into_iter(), 20, sa, da).is_ok());
+}
+
+//# id=checksum.decoder_accepts_conforming_zero_field props=C18 kind=complete features=compute_checksum pair=
+// class: a conforming sender whose other words sum to 0xffff transmits the checksum 0x0000
+#[cfg(feature = "compute_checksum")]
+#[cfg_attr(kani, kani::proof)]
+#[cfg_attr(kani, kani::unwind(22))]
+#[cfg_attr(vx_replay, test)]
+fn h_ck_tcp_accepts_conforming_zero_field() {
+    let b: [u8; 20] = any();
+    let (s, d): ([u8; 4], [u8; 4]) = (any(), any());
+    vx_assume!(b[12] >> 4 == 5);
+    vx_assume!(rfc1071_tcp_sum(&b, &s, &d, 20) == 0xffff);
+    vx_assume!(b[16] == 0 && b[17] == 0);
+    assert!(TcpHeader::from_bytes(b.into_iter(), 20, Ipv4Address::new(s), Ipv4Address::new(d)).is_ok());
+}
+
+//# id=checksum.decoder_accepts_conforming props=C18 kind=complete features=compute_checksum tier=thorough pair=
+#[cfg(feature = "compute_checksum")]
+#[cfg_attr(kani, kani::proof)]
+#[cfg_attr(kani, kani::unwind(22))]
+#[cfg_attr(vx_replay, test)]
+fn h_ck_tcp_accepts_conforming() {
+    let b: [u8; 20] = any();
+    let (s, d): ([u8; 4], [u8; 4]) = (any(), any());
+    vx_assume!(b[12] >> 4 == 5);
+    vx_assume!(rfc1071_tcp_sum(&b, &s, &d, 20) == 0xffff);
+    vx_assume!(!(b[16] == 0 && b[17] == 0));
+    assert!(TcpHeader::from_bytes(b.into_iter(), 20, Ipv4Address::new(s), Ipv4Address::new(d)).is_ok());
+}
+
+//# id=checksum.decoder_rejects_corruption props=C18 kind=complete features=compute_checksum tier=thorough pair=
+#[cfg(feature = "compute_checksum")]
+#[cfg_attr(kani, kani::proof)]
+#[cfg_attr(kani, kani::unwind(22))]
+#[cfg_attr(vx_replay, test)]
+fn h_ck_tcp_rejects_corruption() {
+    let b: [u8; 20] = any();
+    let (s, d): ([u8; 4], [u8; 4]) = (any(), any());
+    vx_assume!(rfc1071_tcp_sum(&b, &s, &d, 20) != 0xffff);
+    assert!(TcpHeader::from_bytes(b.into_iter(), 20, Ipv4Address::new(s), Ipv4Address::new(d)).is_err());
+}
